@@ -144,11 +144,20 @@ def simulate_stubs(ctx, bindir, facts, histories):
         ov = ctx.path("stubov%d" % gi, "overlay.json")
         json.dump({"Replace": rep}, open(ov, "w"))
         binary = os.path.join(bindir, "stubsim_%d" % gi)
-        rc, o, e = ctx.run(["go", "build", "-overlay", ov, "-o", binary, "./cmd/stubsim"], cwd=hsrc, timeout=900)
+        # (with the harness's tag, so that a policy's architecture can be set for the program comparison; without it if that does not build)
+        rc, o, e = ctx.run(["go", "build", "-tags", "verif", "-overlay", ov, "-o", binary, "./cmd/stubsim"], cwd=hsrc, timeout=900)
+        if rc != 0:
+            rc, o, e = ctx.run(["go", "build", "-overlay", ov, "-o", binary, "./cmd/stubsim"], cwd=hsrc, timeout=900)
         if rc != 0:
             run["why"] = "the file set of %s does not build on this host: %s" % (targets[0], e[-200:])
             ctx.note(run["why"])
             continue
+        # "a policy compiles to the same program wherever it is compiled": the programs this file set makes of a fixed set of policies
+        rc, o, e = ctx.run([binary, "-programs"], timeout=120)
+        if rc == 0:
+            run["programs"] = json.loads(o)
+        else:
+            ctx.note("the program set could not be compiled with the file set of %s: %s" % (targets[0], e[-200:]))
         ok = True
         for h in histories:
             rc, o, e = ctx.run([binary], input=json.dumps(h), timeout=60, env={"GODEBUG": "asyncpreemptoff=1"})
@@ -332,6 +341,25 @@ def check(ctx, replay=None):
             diff = sorted(k for k in p64 if p64[k] != p32.get(k))
             if diff:
                 progviol.append(("the same policy compiles to different programs on linux/amd64 and linux/386 (both executed on this host): %s" % diff[:4], {"differs": diff, "amd64": {k: p64[k] for k in diff[:4]}, "386": {k: p32.get(k) for k in diff[:4]}}))
+    # ... and the file set of every non-Linux target, executed on this host (same CPU, so the default architecture is amd64's there too)
+    rl = ctx.run([os.path.join(bindir, "stubsim"), "-programs"], timeout=120)
+    if rl[0] == 0:
+        plinux = json.loads(rl[1])
+        ncmp = 0
+        for t, run in sorted(stubruns.items()):
+            pp = run.get("programs")
+            if not pp or run.get("programs_judged"):
+                continue
+            run["programs_judged"] = True
+            ncmp += len(pp)
+            diff = sorted(k for k in pp if pp[k] != plinux.get(k))
+            if diff:
+                progviol.append(("the same policy compiles to a different program with the files of %s than with the files of linux (both executed on this host): %s" % (t, diff[:4]),
+                                 {"differs": diff, "linux": {k: plinux.get(k) for k in diff[:4]}, t: {k: pp[k] for k in diff[:4]}}))
+        ctx.cov["evaluations"] += ncmp
+        ctx.cov["programs_compared_across_file_sets"] = ncmp
+    else:
+        ctx.note("stubsim -programs failed on the host build: " + rl[2][-200:])
     # the same predicates decided by TLC on the facts
     data = {"targets": rows, "uapi": {k: str(v) for k, v in u.items()}, "enosys": {a: str(enosys_of(a)) for a in goarches}}
     dpath = ctx.path("consts.json")
